@@ -67,6 +67,11 @@ func (t DataType) Bytes(endian binary.ByteOrder, value interface{}, length int64
 	case TIME, TIMEN:
 		dur := asetime.DurationFromTime(value.(time.Time))
 		fract := asetime.MillisecondToFractionalSecond(dur.Microseconds())
+		if fract >= ticksPerDay {
+			// Rounding must not leave the day - 24:00:00 is not
+			// a time of day.
+			fract = ticksPerDay - 1
+		}
 
 		bs := make([]byte, length)
 		endian.PutUint32(bs, uint32(fract))
@@ -84,6 +89,11 @@ func (t DataType) Bytes(endian binary.ByteOrder, value interface{}, length int64
 			binary.LittleEndian.PutUint16(bs[2:], uint16(rest.Minutes()))
 		case 8: // DATETIME, DATETIMEN(8)
 			s := asetime.MillisecondToFractionalSecond(rest.Microseconds())
+			if s >= ticksPerDay {
+				// Rounded up to midnight of the next day.
+				days++
+				s = 0
+			}
 			binary.LittleEndian.PutUint32(bs[:4], uint32(days))
 			binary.LittleEndian.PutUint32(bs[4:], uint32(s))
 		}
@@ -132,6 +142,9 @@ func (t DataType) Bytes(endian binary.ByteOrder, value interface{}, length int64
 
 	return bs, nil
 }
+
+// ticksPerDay is the number of 1/300 second ticks of a day.
+const ticksPerDay = 24 * 60 * 60 * 300
 
 // splitDays splits a duration relative to an epoch into whole days,
 // rounded towards negative infinity, and the remaining time of day.
